@@ -41,6 +41,8 @@ type Trace struct {
 	dir     string
 	ops     *bufio.Writer
 	impl    *bufio.Writer
+	catw    *bufio.Writer
+	catF    *os.File
 	opsF    *os.File
 	implF   *os.File
 	n       int
@@ -57,7 +59,10 @@ func NewTrace(dir string) *Trace {
 	must(err)
 	inf, err := os.Create(filepath.Join(dir, "impl.txt"))
 	must(err)
+	cf, err := os.Create(filepath.Join(dir, "cats.txt"))
+	must(err)
 	return &Trace{dir: dir, ops: bufio.NewWriterSize(of, 1<<20), impl: bufio.NewWriterSize(inf, 1<<20),
+		catw: bufio.NewWriterSize(cf, 1<<20), catF: cf,
 		opsF: of, implF: inf, cats: map[string]int{}, extra: map[string]interface{}{}, distinct: map[string]struct{}{}}
 }
 
@@ -72,6 +77,8 @@ func (t *Trace) Emit(cat string, nontrivial bool, op string, impl string) {
 	t.ops.WriteByte('\n')
 	t.impl.WriteString(impl)
 	t.impl.WriteByte('\n')
+	t.catw.WriteString(cat)
+	t.catw.WriteByte('\n')
 	t.n++
 	t.cats[cat]++
 	if nontrivial {
@@ -103,6 +110,8 @@ func (t *Trace) Add(k string, d int) {
 func (t *Trace) Close() {
 	t.ops.Flush()
 	t.impl.Flush()
+	t.catw.Flush()
+	t.catF.Close()
 	t.opsF.Close()
 	t.implF.Close()
 	st := map[string]interface{}{
